@@ -236,6 +236,16 @@ pub fn xml_clean(s: &str) -> String {
 
 pub fn esc_text(s: &str, style: u8) -> String {
     if style == 3 {
+        // half of the strings mix the two notations: escaped text first, a CDATA section after it
+        // (character data may be written as any sequence of text and CDATA pieces)
+        let n = s.chars().count();
+        if n >= 2 && n % 2 == 0 {
+            let cut = s.char_indices().nth(n / 2).map_or(s.len(), |(i, _)| i);
+            let tail = &s[cut..];
+            if !tail.contains('\r') {
+                return format!("{}<![CDATA[{}]]>", esc_text(&s[..cut], 0), tail.replace("]]>", "]]]]><![CDATA[>"));
+            }
+        }
         // CDATA: split "]]>" so the section stays well-formed; CR must still be a reference
         let mut out = String::new();
         let mut first = true;
